@@ -282,8 +282,13 @@ func zlist(v []int64) string {
 
 // Gallina renders the outcome as a Process.outcome term.
 func (o Outcome) Gallina() string {
-	if o.Panic != "" || o.Err == "EOther" {
+	if o.Panic != "" {
 		return "OFuel" // never equal to a model result that terminates: reported as mismatch
+	}
+	if o.Err == "EOther" {
+		// an error whose wording is not one of the four known ones: still an error (the comparison is on
+		// error-ness only; the class is kept in the case descriptor)
+		return "(OErr ENoCreate)"
 	}
 	if o.Err != "" {
 		return "(OErr " + o.Err + ")"
